@@ -216,7 +216,7 @@ ArgBest(vals, min) ==
       cands == Dedup(SelectSeq(ok, LAMBDA v : Field(v, "value") = best))
       args == Dedup([i \in 1..Len(cands) |-> Field(cands[i], "arg")])
   IN IF ok = <<>> THEN Null
-     ELSE IF Len(args) = 1 THEN args[1] ELSE <<"any", args>>
+     ELSE IF Len(args) = 1 THEN args[1] ELSE <<"any", SortVals(args)>>
 
 (* dev: the set of named *engine deviations* under which the bag is         *)
 (* evaluated.  The documented semantics is dev = {}.  Deviations exist only  *)
@@ -244,7 +244,7 @@ Agg(op, vals, dev) ==
     [] op = "List" -> <<"m", SortVals(nn)>>
     [] op = "Set" -> <<"m", SortVals(Dedup(nn))>>
     [] op = "Avg" -> <<"q", SumInts(nn), Len(nn)>>
-    [] op = "AnyValue" -> IF Len(Dedup(nn)) = 1 THEN nn[1] ELSE <<"any", Dedup(nn)>>
+    [] op = "AnyValue" -> IF Len(Dedup(nn)) = 1 THEN nn[1] ELSE <<"any", SortVals(Dedup(nn))>>
     [] OTHER -> Assert(FALSE, <<"unknown aggregate", op>>)
 
 -----------------------------------------------------------------------------
